@@ -1,5 +1,6 @@
 """C01 fragments: the flag formulas and the auto-reset guard of the two VecEnv implementations.
-Patterns anchor on the assigned target / the keyword only, never on the captured expression."""
+Patterns anchor on the assigned target, or on the keyword plus the guarded variable (an optional `not` / parenthesis is accepted, so a
+negated or extended guard still matches and breaks the Qed); further `if` statements elsewhere in the function do not disturb them."""
 _D = "stable_baselines3/common/vec_env/dummy_vec_env.py"
 _S = "stable_baselines3/common/vec_env/subproc_vec_env.py"
 _B = [("terminated", "bool"), ("truncated", "bool")]
@@ -9,12 +10,12 @@ SPECS = [
          kind="expr", ret="bool", inputs=_B),
     dict(name="dummy_timelimit", file=_D, qual="DummyVecEnv.step_wait",
          start=r"^self\.buf_infos\[env_idx\]\['TimeLimit\.truncated'\] = ", end=None, kind="expr", ret="bool", inputs=_B),
-    dict(name="dummy_autoreset_guard", file=_D, qual="DummyVecEnv.step_wait", start=r"^if\b", end=None,
+    dict(name="dummy_autoreset_guard", file=_D, qual="DummyVecEnv.step_wait", start=r"^if \(?(not )?\(?self\.buf_dones\b", end=None,
          kind="test", inputs=[("done", "bool"), ("terminated", "bool"), ("truncated", "bool")], subst={"self.buf_dones[env_idx]": "done"}),
     # SubprocVecEnv worker, 'step' branch
     dict(name="worker_done", file=_S, qual="_worker", start=r"^done = ", end=None, kind="expr", ret="bool", inputs=_B),
     dict(name="worker_timelimit", file=_S, qual="_worker", start=r"^info\['TimeLimit\.truncated'\] = ", end=None,
          kind="expr", ret="bool", inputs=_B),
-    dict(name="worker_autoreset_guard", file=_S, qual="_worker", start=r"^if (?!cmd\b)", end=None, kind="test",
+    dict(name="worker_autoreset_guard", file=_S, qual="_worker", start=r"^if \(?(not )?\(?done\b", end=None, kind="test",
          inputs=[("done", "bool"), ("terminated", "bool"), ("truncated", "bool")]),
 ]
